@@ -151,6 +151,11 @@ V("c15-rw-duplicates-unique-len", "rewrite", "C15", P + "polygon.py",
 V("c15-duplicates-npdiff", "fault", "C15", P + "polygon.py",
   "        _, indices = np.unique(vertices, axis=0, return_index=True)\n        if len(indices) != vertices.shape[0]:",
   "        if not np.diff(vertices, axis=0).any(axis=1).all():", rule="CT-2")
+V("c15-vertices-no-dtype", "fault", "C15", P + "polygon.py", "        vertices = np.array(vertices, dtype=np.float64)", "        vertices = np.array(vertices)", rule="CT-8")
+V("c15-rw-vertices-asarray-copy", "rewrite", "C15", P + "polygon.py", "        vertices = np.array(vertices, dtype=np.float64)", "        vertices = np.asarray(vertices, dtype=np.float64).copy()")
+V("c15-radius-refusal-form-nan", "fault", "C15", P + "circle.py",
+  "        if value > 0:\n            self._radius = value\n        else:\n            raise ValueError(\"Radius must be greater than zero.\")",
+  "        if value <= 0:\n            raise ValueError(\"Radius must be greater than zero.\")\n        self._radius = value", rule="CT-2")
 V("c15-asarray-center", "fault", "C15", P + "sphere.py", "self._centroid = np.array(value)", "self._centroid = np.asarray(value)", rule="CT-1")
 V("c15-store-vertices-asarray", "fault", "C15", P + "polyhedron.py",
   "self._vertices = np.array(vertices, dtype=np.float64)", "self._vertices = np.asarray(vertices, dtype=np.float64)", rule="CT-1")
@@ -290,6 +295,9 @@ V("c11-rw-dihedral-temp", "rewrite", "C11", P + "polyhedron.py",
 V("c11-rw-loop-variable", "rewrite", "C11", P + "convex_polyhedron.py", "            unnorm_r += edge_length * (np.pi - phi)", "            unnorm_r += (np.pi - phi) * edge_length")
 
 # ------------------------------------------------------------------------------------------ C05 / C06
+V("c05-sphere-inplace-shift-int", "fault", "C05", P + "sphere.py",
+  "        points = np.atleast_2d(points) - self.centroid\n        return np.linalg.norm(points, axis=-1) <= self.radius",
+  "        points = np.atleast_2d(points)\n        points -= self.centroid\n        return np.linalg.norm(points, axis=-1) <= self.radius", rule=None)
 V("c05-drop-axis", "fault", "C05", P + "convex_polyhedron.py",
   "return np.all(self._point_plane_distances(points) <= 0, axis=1)", "return np.all(self._point_plane_distances(points) <= 0)", rule="IN-2")
 V("c05-no-atleast2d", "fault", "C05", P + "sphere.py",
